@@ -195,7 +195,10 @@ class Enumerator:
                 evs.append(("set", norm(t), self.tx(st.value)))
             return [(evs, None)]
         if isinstance(st, ast.AugAssign):
-            return [([("set", norm(st.target), f"{norm(st.target)} {type(st.op).__name__} {self.tx(st.value)}")], None)]
+            # x op= v  is  x = x op (v): expressed as an ordinary expression so that path-local resolution can substitute x
+            e = ast.BinOp(left=ast.Name(id="__SELF__", ctx=ast.Load()), op=st.op, right=inline(st.value, self.defs))
+            txt = norm(e).replace("__SELF__", norm(st.target))
+            return [([("set", norm(st.target), txt)], None)]
         if isinstance(st, ast.Return):
             return [(facts + [("return", t)], "return") for facts, t in self.forks(st.value)]
         if isinstance(st, ast.Raise):
@@ -318,7 +321,7 @@ def select(paths, scen: Dict[str, bool]) -> List[Path]:
 # path-local values: substitute the latest value stored to a plain name into later events of the same path, and fold
 # step-by-step list construction (x = [a]; x.extend(b); x.append(c)) into one list display
 
-def resolve(path: Path) -> Path:
+def resolve(path: Path, keep=()) -> Path:
     import copy
     env: Dict[str, ast.AST] = {}
     out: List[Event] = []
@@ -356,7 +359,7 @@ def resolve(path: Path) -> Path:
                 out.append(ev)
                 continue
             val = S().visit(e)
-            if tgt.isidentifier():
+            if tgt.isidentifier() and tgt not in keep:
                 env[tgt] = val
             else:
                 for name in [n.id for n in ast.walk(parse(tgt) or ast.Constant(value=0)) if isinstance(n, ast.Name) and isinstance(n.ctx, ast.Store)]:
